@@ -227,3 +227,64 @@ def guard(oracle, fn, *args, **kw):
         raise Violation(oracle, '%s raised %s: %s (at %s)' % (
             getattr(fn, '__name__', 'call'), type(e).__name__, e, repo_frame(e.__traceback__)),
             sig='%s:raised:%s' % (oracle, type(e).__name__))
+
+
+class OWorker:
+    """client side of the persistent `python -O` worker"""
+
+    def __init__(self):
+        import subprocess
+        env = repoenv.child_env()
+        env['PYTHONPATH'] = repoenv.VERIF_DIR + os.pathsep + env['PYTHONPATH']
+        if os.environ.get('VERIF_REPO'):
+            env['VERIF_REPO'] = os.environ['VERIF_REPO']
+        self.p = subprocess.Popen([sys.executable, '-O', '-W', 'ignore', '-m', 'pelverif.oworker'],
+                                  cwd=repoenv.VERIF_DIR, env=env, stdin=subprocess.PIPE,
+                                  stdout=subprocess.PIPE, stderr=subprocess.DEVNULL, text=True, bufsize=1)
+        hello = self._read(60)
+        if not hello or not hello.get('ready') or hello.get('debug') is not False:
+            raise HarnessError('-O worker did not start with assertions disabled: %r' % (hello,))
+
+    def _read(self, timeout):
+        import select
+        r, _, _ = select.select([self.p.stdout], [], [], timeout)
+        if not r:
+            return None
+        line = self.p.stdout.readline()
+        if not line:
+            return None
+        return json.loads(line)
+
+    def request(self, req, timeout=120):
+        try:
+            self.p.stdin.write(json.dumps(req) + '\n')
+            self.p.stdin.flush()
+        except BrokenPipeError:
+            self.close()
+            raise HarnessError('-O worker died')
+        resp = self._read(timeout)
+        if resp is None:
+            self.close()
+            return {'timeout': True}
+        if 'worker_error' in resp:
+            raise HarnessError('-O worker failed: %s' % resp['worker_error'])
+        return resp
+
+    def close(self):
+        try:
+            self.p.kill()
+            self.p.wait(5)
+        except Exception:
+            pass
+
+
+_oworker = None
+
+
+def oworker():
+    global _oworker
+    if _oworker is None or _oworker.p.poll() is not None:
+        _oworker = OWorker()
+        import atexit
+        atexit.register(_oworker.close)
+    return _oworker
